@@ -276,6 +276,15 @@ def by_cell(ctx):
         ctx.expect_raises("C01.bycell.incommensurate_rejected",
                           lambda: df.Mesh(region=region, cell=pickarg(rng, bad, nd)),
                           what={"cell": bad, "axis": ax, "m+f": m + f, "spec": spec.describe()})
+    # a cell far larger than the edge along one axis (the edge is a vanishing fraction of one
+    # cell, i.e. zero whole cells): no mesh
+    ax = int(rng.integers(0, nd))
+    bad = cell.copy()
+    bad[ax] = edges[ax] * 10.0 ** rng.uniform(0.2, 7)
+    ctx.expect_raises("C01.bycell.incommensurate_rejected",
+                      lambda: df.Mesh(region=region, cell=pickarg(rng, bad, nd)),
+                      what={"cell": bad, "axis": ax, "larger_than_edge": True,
+                            "spec": spec.describe()})
     # many cells along one axis: the decision is still about a fraction of ONE cell
     ax = int(rng.integers(0, nd))
     big = int(10 ** rng.uniform(1.5, 4))
